@@ -71,6 +71,10 @@ def spec_term(s):
     return '(sp %s %s %s %s %s)' % tuple(cq.z(x) for x in s)
 
 
+def _nn_c05(v):
+    return float('inf') if not np.isfinite(v) else float(v)
+
+
 def dense_M(ml, cycle):
     n = ml.levels[0].A.shape[0]
     dt = ml.levels[0].A.dtype
@@ -181,6 +185,14 @@ def run(ctx):
                 configs.append((long_, short))
         configs.append(([opts(m, 1, 'symmetric')], [opts(m, 1, 'symmetric'), opts('jacobi' if m != 'jacobi' else 'richardson', 1)]))
         configs.append(([opts(m, 1, 'symmetric'), opts('jacobi' if m != 'jacobi' else 'richardson', 1)], [opts(m, 1, 'symmetric')]))
+    # lists of differing length whose first level is an adjoint pair and whose deeper levels pair every sweep with every sweep
+    for m in ('gauss_seidel', 'sor', 'block_gauss_seidel', 'gauss_seidel_nr'):
+        for first in (('forward', 'backward'), ('symmetric', 'symmetric'), ('backward', 'forward')):
+            for deep in sweeps:
+                for last in sweeps:
+                    configs.append(([opts(m, 1, first[0]), opts(m, 1, deep)], [opts(m, 1, last)]))
+                    configs.append(([opts(m, 1, last)], [opts(m, 1, first[1]), opts(m, 1, deep)]))
+                    configs.append(([opts(m, 1, first[0]), opts(m, 1, deep), opts(m, 1, deep)], [opts(m, 1, first[1]), opts(m, 1, last)]))
     if not (ctx.thorough or ctx.search):
         head = configs[:]
         rng.shuffle(head)
@@ -254,6 +266,12 @@ def oracle(ctx, classes):
     np.random.seed(1)
     Ab = sp.bsr_array(sp.csr_array(poisson((4, 4), format='csr')), blocksize=(2, 2))
     probs.append(('real-bsr2', pyamg.smoothed_aggregation_solver(Ab, max_coarse=2, keep=True)))
+    # ... and a complex Hermitian one (the diagonal blocks and their inverses are complex Hermitian 2x2 matrices)
+    np.random.seed(1)
+    P44 = sp.csr_array(poisson((4, 4), format='csr'))
+    u44 = np.exp(1j * np.arange(16) * 0.9)
+    Acb = sp.bsr_array(sp.csr_array(sp.diags_array(u44) @ P44 @ sp.diags_array(u44.conj())), blocksize=(2, 2))
+    probs.append(('complex-bsr2', pyamg.smoothed_aggregation_solver(Acb, max_coarse=2, keep=True)))
     # a hierarchy deep enough for the W-cycle to differ from V and F at several levels (>= 4 levels)
     np.random.seed(1)
     Ad_ = sp.csr_array(poisson((36,), format='csr'))
@@ -269,12 +287,12 @@ def oracle(ctx, classes):
     for key, (pre, post) in items:
         for nm, ml in probs:
             names_used = {name_of(a) for a in pre + post}
-            if nm in ('complex', 'real-bsr2') and names_used & {'cf_jacobi', 'fc_jacobi', 'cf_block_jacobi', 'fc_block_jacobi', 'strength_based_schwarz'}:
+            if nm in ('complex', 'real-bsr2', 'complex-bsr2') and names_used & {'cf_jacobi', 'fc_jacobi', 'cf_block_jacobi', 'fc_block_jacobi', 'strength_based_schwarz'}:
                 continue      # need a C/F splitting / strength matrix, which the SA hierarchy does not carry
             if nm == 'real-deep' and (len(pre) + len(post) > 2 or not names_used <= {'gauss_seidel', 'jacobi', 'richardson', 'chebyshev', 'sor',
                                                                                        'block_gauss_seidel', 'schwarz', None}):
                 continue      # (single-smoother classes of the common methods only)
-            if nm == 'real-bsr2' and not names_used & {'gauss_seidel', 'sor', 'block_gauss_seidel', 'block_jacobi', 'jacobi', 'gauss_seidel_ne',
+            if nm in ('real-bsr2', 'complex-bsr2') and not names_used & {'gauss_seidel', 'sor', 'block_gauss_seidel', 'block_jacobi', 'jacobi', 'gauss_seidel_ne',
                                                        'gauss_seidel_nr', 'jacobi_ne', 'schwarz'}:
                 continue      # (only the relaxation methods that have BSR-specific code paths)
             case = dict(pre=core.jsonable(pre), post=core.jsonable(post), problem=nm)
@@ -290,6 +308,15 @@ def oracle(ctx, classes):
                         ctx.case(('M', repr(pre), repr(post), nm, cyc), True)
                         ctx.count('oracle:' + nm)
                         asym = np.linalg.norm(M - M.conj().T) / max(np.linalg.norm(M), 1e-300)
+                        # the operator is linear: vectors of tiny or huge norm are mapped like any other
+                        Mop_ = ml.aspreconditioner(cycle=cyc)
+                        vprobe = np.arange(1.0, M.shape[0] + 1).astype(M.dtype)
+                        for ex_ in (-60, 50):
+                            got_ = np.asarray(Mop_ @ (vprobe * 2.0 ** ex_)) * 2.0 ** -ex_
+                            if _nn_c05(np.linalg.norm(got_ - M @ vprobe)) > 1e-9 * (1 + np.linalg.norm(M @ vprobe)):
+                                ctx.fail('preconditioner-not-homogeneous', 'M (2^%d v) != 2^%d M v (%s-cycle): deviation %.3g'
+                                         % (ex_, ex_, cyc, np.linalg.norm(got_ - M @ vprobe)), dict(case, cycle=cyc))
+                                break
                         meth = name_of(pre[0])
                         kweq = all(kw_equal_except_sweep(a, b) for a, b in zip(pre, post)) if len(pre) == len(post) else True
                         if asym > 1e-10:
